@@ -24,9 +24,9 @@ func (C07) Plan(tier string) core.Plan {
 
 func (C07) Info() core.Info {
 	return core.Info{
-		Rule:        "shape A: target parameter (n,T1), sometimes further named T1 parameters; 2-5 supplied named T0 values (sometimes all carrying one subtype label) among which each such parameter has a namesake; one converter with a type-only T0 input producing T1, in positional / struct / pointer-struct / built form; shape B: supplied (n,T0); one converter that takes (n,T0) explicitly and one type-only T0->T1 converter; both with 0-4 unrelated distractors, every registration order, random casing of names, additional target parameters, sometimes another converter that also consumes T0, sometimes an earlier call of the same Func without the decisive option. Each world under 12-48 seeded iteration-order schedules. Oracle A: the converter received the token supplied as n and the target received that execution's product. Oracle B: the name-using converter is in the log, the type-only one is not. Non-trivial: always (the competing candidates are the shape); distinct = distinct (world shape, event-log hash)",
+		Rule:        "shape A: target parameter (n,T1), sometimes further named T1 parameters; 2-5 supplied named T0 values (sometimes all carrying one subtype label) among which each such parameter has a namesake; one converter with exactly one type-only input (T0) producing T1, sometimes with further inputs that are given directly by name, in positional / struct / pointer-struct / built form; shape B: supplied (n,T0); one converter that takes (n,T0) explicitly and one type-only T0->T1 converter; both with 0-4 unrelated distractors, every registration order, random casing of names, additional target parameters, sometimes another converter that also consumes T0, sometimes an earlier call of the same Func without the decisive option. Each world under 12-48 seeded iteration-order schedules. Oracle A: the converter received the token supplied as n and the target received that execution's product. Oracle B: the name-using converter is in the log, the type-only one is not. Non-trivial: always (the competing candidates are the shape); distinct = distinct (world shape, event-log hash)",
 		Assumptions: []string{"the statement covers a single conversion step; chains are not asserted"},
-		Probes:      []string{"c07_shape_a", "c07_shape_b", "c07_a_ge3_candidates", "c07_a_multi_param", "c07_a_subtyped_candidates", "c07_after_earlier_call", "c07_mixed_case_names", "s1_nonidentity_perms"},
+		Probes:      []string{"c07_shape_a", "c07_shape_b", "c07_a_ge3_candidates", "c07_a_multi_param", "c07_a_subtyped_candidates", "c07_after_earlier_call", "c07_a_converter_with_named_flags", "c07_mixed_case_names", "s1_nonidentity_perms"},
 		Real:        realComponents,
 		Simulated:   simComponents,
 	}
@@ -98,6 +98,18 @@ func (C07) Gen(r *simrt.RNG, tier string) core.Case {
 		}
 		inF, outF := convForm()
 		c := world.Party{InForm: inF, OutForm: outF, In: []world.Slot{{Label: world.Label{Type: T0}}}, Out: []world.Slot{{Label: world.Label{Type: T1}}}, HasErr: inF == world.FormBuilt || r.Bool()}
+		// further inputs of the converter, given directly by name ("flags")
+		if inF != world.FormPositional && r.Chance(1, 3) {
+			nf := 1 + r.Intn(2)
+			for i := 0; i < nf; i++ {
+				fl := world.Label{Name: []string{"x", "y"}[i], Type: perm[7+i]}
+				pos := r.Intn(len(c.In) + 1)
+				in := append([]world.Slot{}, c.In[:pos]...)
+				in = append(in, world.Slot{Label: fl})
+				c.In = append(in, c.In[pos:]...)
+				addArg(world.ArgSpec{Kind: world.ArgNamed, Label: fl, Spell: fl.Name})
+			}
+		}
 		w.Parties = append(w.Parties, c)
 		kind := world.ArgConv
 		if inF == world.FormBuilt || r.Bool() {
@@ -225,8 +237,22 @@ func c07Shape(w world.World) (shape string, n string, T0, T1 int, conv, nameConv
 			return "", "", 0, 0, 0, 0
 		}
 	}
+	// exactly one type-only input (no subtype); any further inputs are named
+	// and exactly supplied (checked below); one type-only output
+	typeOnlySlot := func(p world.Party) int {
+		idx := -1
+		for i, s := range p.In {
+			if s.Name == "" {
+				if idx >= 0 || s.Sub != "" {
+					return -1
+				}
+				idx = i
+			}
+		}
+		return idx
+	}
 	okTypeOnly := func(p world.Party) bool {
-		return len(p.In) == 1 && p.In[0].Name == "" && p.In[0].Sub == "" && len(p.Out) == 1 && p.Out[0].Name == "" && p.Out[0].Sub == "" && !p.Once
+		return typeOnlySlot(p) >= 0 && len(p.Out) == 1 && p.Out[0].Name == "" && p.Out[0].Sub == "" && !p.Once
 	}
 	view := model.ViewOf(&w, last)
 	// every other parameter of the target has an exactly keyed value, or is a
@@ -247,10 +273,16 @@ func c07Shape(w world.World) (shape string, n string, T0, T1 int, conv, nameConv
 	}
 	subSeen := map[string]bool{}
 	for _, l := range view.Supplied {
-		if l.Sub != "" && (l.Name == "" || !(len(prod) > 0 && len(w.Parties[prod[0]].In) == 1 && l.Type == w.Parties[prod[0]].In[0].Type)) {
+		t0 := -1
+		for _, pp := range prod {
+			if ts := typeOnlySlot(w.Parties[pp]); ts >= 0 && t0 < 0 {
+				t0 = w.Parties[pp].In[ts].Type
+			}
+		}
+		if l.Sub != "" && (l.Name == "" || l.Type != t0) {
 			return "", "", 0, 0, 0, 0
 		}
-		if l.Name != "" && len(prod) > 0 && len(w.Parties[prod[0]].In) == 1 && l.Type == w.Parties[prod[0]].In[0].Type {
+		if l.Name != "" && l.Type == t0 {
 			subSeen[l.Sub] = true
 		}
 	}
@@ -278,10 +310,25 @@ func c07Shape(w world.World) (shape string, n string, T0, T1 int, conv, nameConv
 		if !okTypeOnly(p) {
 			return "", "", 0, 0, 0, 0
 		}
-		T0 = p.In[0].Type
+		T0 = p.In[typeOnlySlot(p)].Type
 		tot, hasN, typed := countNamed(T0)
 		if tot < 2 || !hasN || typed || T0 == T1 {
 			return "", "", 0, 0, 0, 0
+		}
+		for _, fs := range p.In {
+			if fs.Name == "" {
+				continue
+			}
+			ok := fs.Type != T0 && fs.Type != T1 && fs.Sub == ""
+			found := false
+			for _, l := range view.Supplied {
+				if l == fs.Label {
+					found = true
+				}
+			}
+			if !ok || !found {
+				return "", "", 0, 0, 0, 0
+			}
 		}
 		for ai, a := range w.Args {
 			if used[ai] && (a.Kind == world.ArgConv || a.Kind == world.ArgConvFunc) && a.Party != prod[0] {
@@ -313,7 +360,7 @@ func c07Shape(w world.World) (shape string, n string, T0, T1 int, conv, nameConv
 			a, b = b, a
 			ci, ni = ni, ci
 		}
-		if !okTypeOnly(a) || len(b.In) != 1 || b.In[0].Name != n || b.In[0].Sub != "" || b.In[0].Type != a.In[0].Type || len(b.Out) != 1 || b.Out[0].Name != "" || b.Out[0].Sub != "" || b.Once {
+		if !okTypeOnly(a) || len(a.In) != 1 || len(b.In) != 1 || b.In[0].Name != n || b.In[0].Sub != "" || b.In[0].Type != a.In[0].Type || len(b.Out) != 1 || b.Out[0].Name != "" || b.Out[0].Sub != "" || b.Once {
 			return "", "", 0, 0, 0, 0
 		}
 		T0 = a.In[0].Type
@@ -445,11 +492,20 @@ func (C07) Run(c core.Case, ctx *core.Ctx) []core.Violation {
 					// the value this parameter holds must be the product of a conversion
 					// whose input was the supplied value of the same name
 					id := tExec.In[pi]
-					if id == 0 || id >= uint64(len(rt.Tokens)) || rt.Tokens[id].Kind != world.TokProduced || rt.Tokens[id].Party != conv || len(rt.Tokens[id].Inputs) != 1 {
+					tslot := -1
+					for si, cs := range w.Parties[conv].In {
+						if cs.Name == "" {
+							tslot = si
+						}
+					}
+					if len(w.Parties[conv].In) > 1 {
+						ctx.St.Inc("c07_a_converter_with_named_flags")
+					}
+					if id == 0 || id >= uint64(len(rt.Tokens)) || rt.Tokens[id].Kind != world.TokProduced || rt.Tokens[id].Party != conv || tslot < 0 || len(rt.Tokens[id].Inputs) != len(w.Parties[conv].In) {
 						add("target-did-not-receive-conversion", fmt.Sprintf("schedule %d: the target's parameter %q holds token %d, which is not a product of the converter", k, s.Name, id))
 						continue
 					}
-					src := rt.Tokens[id].Inputs[0]
+					src := rt.Tokens[id].Inputs[tslot]
 					if src == 0 || src >= uint64(len(rt.Tokens)) || rt.Tokens[src].Label.Name != s.Name {
 						gl := "the zero value"
 						if src != 0 && src < uint64(len(rt.Tokens)) {
